@@ -7,13 +7,15 @@ def plan(tier):
         "families": [{"fam": "fm", "trace": "SuffixIndexTraceFm", "nfiles": 2, "timeout": 3000}],
         "required_obligations": ["exhaustive_small", "complete_by_construction", "partial_by_construction",
                                  "absent_by_construction", "longer_than_text", "whole_text_pattern", "multi_sentinel",
-                                 "sampled_sa", "occ_rate_gt64", "own_borrowed", "own_owned", "own_arc"],
+                                 "sampled_sa", "sentinel_not_dollar_sampled_sa", "occ_rate_gt64", "own_borrowed", "own_owned", "own_arc"],
         "rule": "one run = one FM index object (text, alphabet, Occ rate, raw/sampled SA, borrowed/owned/Arc) answering "
-                "many patterns; exhaustive: every text over {A,C,$} (<=3 sentinels, n<=6/7) x every pattern over {A,C} "
+                "many patterns; sentinels '$', '#' and byte 0; exhaustive: every text over {A,C,sentinel} (<=3 sentinels, n<=6/7, SA "
+                "sampling 1..8) x every pattern over {A,C} "
                 "of length <=5/6; random texts up to 500 (DNA, protein, unary, periodic, high bytes, multi-sentinel) for "
                 "every combination of Occ rate {1,3,65,130} x SA {raw, sampled 2, 5} x ownership, with patterns that "
                 "occur / have an absent symbol in front (proper suffix occurs) / at the end / one substitution / glued "
-                "substrings / longer than the text / the whole text",
+                "substrings / longer than the text / the whole text; small texts for every sentinel x every SA sampling rate 2..8 "
+                "with all single-symbol patterns",
         "bounds": {"mc": "Sym={a,b}+sentinel (<=3), n<=6 (quick) / 7 (thorough), |p|<=5 / 6, Occ rates {1,2,3}, T=1",
                    "impl": "n<=500, |p|<=505, Occ rates up to 130, SA sampling rates {1,2,3,5}"},
         "assumptions": ["ndJsonDeserialize/TLC evaluate the TLA+ definitions faithfully",
